@@ -951,6 +951,18 @@ impl CommitEnv for LsmCommitEnv {
 			processed_batch.add_record(entry.kind, entry.key.clone(), encoded_value, timestamp)?;
 		}
 
+		// A batch that cannot fit an empty memtable must not reach the WAL: its
+		// apply would fail on every memtable and leave the fresh one marked full
+		// (every later commit would fail too), and recovery could not replay its
+		// record - the store would not open again.
+		let need = MemTable::arena_upper_bound(&processed_batch);
+		if need > self.core.opts.max_memtable_size {
+			return Err(Error::Other(format!(
+				"Batch too large for a memtable: it may need {} bytes, max_memtable_size is {}",
+				need, self.core.opts.max_memtable_size
+			)));
+		}
+
 		// Write to WAL for durability
 		let enc_bytes = processed_batch.encode()?;
 		let mut wal_guard = self.core.wal.write();
